@@ -16,7 +16,7 @@ func init() {
 		ID: "C20",
 		Explanation: "Decided: (R1) the scheduler-cleanup step is in the kill chain, runs on termination and on restart, and Clear deletes every recorded job; (R2) the job key is own path + ':' + reference at schedule, the recorded key is the one scheduled, Cancel deletes the key recorded for that reference; the key table is touched only by the actor scheduler's own methods; " +
 			"(R3) a cron parse error returns the converted error and schedules nothing; Cancel of an unknown reference returns not-found without touching the job scheduler; (R4) the job function tells a SchedulerMessage carrying the caller's message through Tell/TellSelf (the mailbox) and the receiver runs its behaviour on exactly that message; " +
-			"(R5) an error from the underlying Schedule reaches the caller and the key is recorded only on success. NOT decided: 'not before the delay', counts per interval, cancellation racing the firing instant (go-quartz internals + wall clock).",
+			"(R5) an error from the underlying Schedule reaches the caller and the key is recorded only on success. (R6) the shared engine is constructed with neither blocking execution nor a worker limit: a job function that blocks (a Tell to an unreachable peer, C14.R1) delays no other actor's job. NOT decided: 'not before the delay', counts per interval, cancellation racing the firing instant (go-quartz internals + wall clock).",
 		Assumptions: []string{"go-quartz: ScheduleJob/DeleteJob are non-blocking and fallible; a deleted job does not fire (summary, not analysed)"},
 		Rules: []Rule{
 			{ID: "C20.R1", Min: 3, Desc: "jobs die with the actor", Fn: c20Die},
@@ -756,7 +756,6 @@ func (g *IG) okEdgesLookup(lk *ssa.Lookup) (found, missing map[edge]bool) {
 	}
 	return
 }
-
 
 // c20Dispatch: one scheduler (one timer loop) serves every actor of the system, and the job function is a Tell, which can block on
 // an unreachable remote peer (C14.R1, known finding). If the loop runs job functions inline (blocking execution) or feeds a
